@@ -293,6 +293,9 @@ func c04Run(t interface{ Fatalf(string, ...any) }, p *c04Program) (alternations 
 		altCore = zapcore.NewCore(zapcore.NewJSONEncoder(jcfg), ws2, zapcore.DebugLevel)
 	case "buffered":
 		bws = &zapcore.BufferedWriteSyncer{WS: mkSink("Buffered(sink)", false), Size: p.BufSize, FlushInterval: time.Second, Clock: clk}
+		if len(p.Scripts)%3 == 0 {
+			_ = bws.Stop() // stopped once before its first use: a no-op that leaves no trace
+		}
 		core = zapcore.NewCore(zapcore.NewJSONEncoder(jcfg), bws, zapcore.DebugLevel)
 	case "shared-locked":
 		// ONE locked syncer is used by a core directly and is also a member of a combined syncer under another
@@ -454,10 +457,20 @@ func c04Run(t interface{ Fatalf(string, ...any) }, p *c04Program) (alternations 
 	if v := panics.Load(); v != nil {
 		t.Fatalf("%v", v)
 	}
-	_ = lg.Sync()
-	_ = lgAlt.Sync()
+	stoppedMidRun := false
+	for _, sc := range p.Scripts {
+		for _, o := range sc {
+			if o.Kind == "stop" {
+				stoppedMidRun = true // what is written after a Stop is only delivered by an explicit Sync
+			}
+		}
+	}
+	if bws == nil || len(p.Scripts)%3 != 0 || stoppedMidRun {
+		_ = lg.Sync()
+		_ = lgAlt.Sync()
+	}
 	if bws != nil {
-		_ = bws.Stop()
+		_ = bws.Stop() // (for every third goroutine count Stop alone has to deliver what is still buffered)
 	}
 	for _, c := range closers[:min(1, len(closers))] {
 		c() // close files before reading
